@@ -201,6 +201,10 @@ func (d *Decoder) decodeNALUs(pkt *rtp.Packet) ([][]byte, error) {
 		nalus = [][]byte{pkt.Payload}
 	}
 
+	if len(nalus) == 0 {
+		return nil, fmt.Errorf("packet doesn't contain any NALU")
+	}
+
 	return nalus, nil
 }
 
